@@ -442,6 +442,16 @@ class Histogram1D(ObjectWithBinning, HistogramBase):
         weights_array = extract_weights(weights, array_mask=array_mask)
         if weights_array is not None:
             self._coerce_dtype(weights_array.dtype)
+        if values_array is not None and not self.keep_missed and self.bin_count > 0:
+            # Values outside the bins change nothing at all (not the statistics either, as in fill)
+            bins = self.bins
+            position = np.searchsorted(bins[:, 0], values_array, side="right") - 1
+            inside = (position >= 0) & (
+                (values_array < bins[position, 1]) | (values_array == bins[-1, 1])
+            )
+            values_array = values_array[inside]
+            if weights_array is not None:
+                weights_array = weights_array[inside]
         if values_array is not None and values_array.size == 0:
             return  # An empty batch (or only NaN values): nothing to add
         (frequencies, errors2, underflow, overflow, stats) = calculate_1d_frequencies(
